@@ -59,3 +59,23 @@ pub(crate) fn with_one_selection(textlen: usize, begin: usize, end: usize) -> Te
     }
     res
 }
+
+use crate::types::kani_verif::common::encode3;
+/// resource whose text is the UTF-8 encoding of the first n of 3 symbolic code points.
+/// The String points into a caller-owned stack buffer (heap strings with symbolic contents exhaust the back end);
+/// it is never dropped (the resource is forgotten).
+pub(crate) fn sym_resource(n: usize, cs: &[char; 3], buf: &mut [u8; 12]) -> (TextResource, usize) {
+    let len = encode3(n, cs, buf);
+    let mut res = bare(n);
+    res.text = unsafe { String::from_raw_parts(buf.as_mut_ptr(), len, 12) };
+    res.config.milestone_interval = 0;
+    (res, len)
+}
+/// naive oracle: byte offset of code point position p (p <= n)
+pub(crate) fn prefix_bytes(p: usize, cs: &[char; 3]) -> usize {
+    let mut b = 0;
+    let mut i = 0;
+    while i < p && i < 3 { b += cs[i].len_utf8(); i += 1; }
+    b
+}
+
